@@ -20,12 +20,19 @@ by value.  *Call sequences* (``C16/sequence``): 2..4 export/import steps in ONE 
 ``fmt_data`` / ``fmt_weights`` and explicit ``index_base``, some with the defaults; every default-format step is judged
 exactly like a first call.  Each sequence runs in a forked child so that state a defective export leaves behind cannot
 leak into the next case (replays reproduce in a fresh process).
+
+Round 4 additions.  ``case["pres"]`` (absent = the plain calls) names how the caller hands the valid arguments over; the
+bodies of the plain cells call ``_export`` / ``_import`` which apply it, so ``C16/presentation`` judges every presented
+request with the clauses of the plain cells (documented positional order pinned from the unchanged tree:
+``export_data(data, filename, fmt_data, fmt_weights)``, ``import_data(filename, index_base)``).  ``C16/format-arguments``:
+explicit formats positionally == by keyword.  ``C16/rejected``: rejected exports / imports inside histories (forked child).
 """
 
 from __future__ import annotations
 
 import logging
 import os
+import pathlib
 import shutil
 import tempfile
 
@@ -58,7 +65,18 @@ RULE = (
     "40000 nonzeros incl. the block edges 16384 / 32768 +-1, dense tensors beyond 65536 cells, Kruskal factors and matrices "
     "with 17000 .. 40000 rows), data expanded from a seed; C16/fork: export, import, edit the import result in place, import "
     "again, edit the exported object, export again - every object and file keeps its own state; C16/degenerate: zero-length "
-    "modes, rank 0, default-constructed objects."
+    "modes, rank 0, default-constructed objects.  Round 4: C16/presentation - the round trips of the small cells with the "
+    "arguments handed over as ordinary callers do (optional arguments positionally in the documented order export_data(data, "
+    "filename, fmt_data, fmt_weights) / import_data(filename, index_base), as explicit None, by keyword in any order; file name "
+    "as str or pathlib.Path; index base as Python int or NumPy integer scalar of 8..64 bits; sparse subscripts held in int32 / "
+    "int8 / int16 / uint8 / uint16 / uint32 / uint64 arrays, with a mode as long as that dtype can index and stored subscripts "
+    "at its far end; read-only and strided arrays, copy=False; an index base given for files that carry no subscripts; root "
+    "logger at DEBUG for the whole round trip) judged by the clauses of the plain cells; C16/format-arguments - explicit "
+    "formats positionally == by keyword (file bytes) and each format reaches the numbers its name says; C16/rejected - "
+    "histories with rejected exports (format that is none, unsupported object; onto no file / onto the file of another "
+    "object) and rejected imports (missing, mislabelled, truncated, non-numeric files, with and without an index base): "
+    "the object is unchanged, the path never reads as an object that was not written there, read files are not modified, "
+    "later valid steps are judged as first calls."
 )
 ASSUMPTIONS = [
     "float64 objects are compared bit for bit; integer / float32 / boolean tensors, matrices and sparse values (a minority "
@@ -74,6 +92,12 @@ ASSUMPTIONS = [
     "40000 literal values would not be a usable replay); the seed itself is drawn by Hypothesis",
     "C16/degenerate: for a dense object that holds no numbers only type, shape and 'holds no values' are compared (the array "
     "shape pyttb gives an empty buffer is the constructor's business); sparse tensors cannot have zero-length modes",
+    "C16/presentation: Kruskal tensors only in float64 (the constructor documents and enforces dtype=float for factor "
+    "matrices); np.uint64 index bases are left out (int64 - uint64 is float64 in NumPy; a Python int is what is documented)",
+    "C16/rejected: after a rejected export the partial file may stay (the tree writes in place); what is demanded is that "
+    "import_data of that path raises or returns the object the path held before; for an unsupported object (nothing of the "
+    "request is valid) the destination must be byte-for-byte as it was",
+    "C16/format-arguments: only floating-point conversions (%e %f %g with flags), for which C printf and Python's % agree",
 ]
 
 # --------------------------------------------------------------------------
@@ -163,6 +187,97 @@ class Scratch:
 def _read_lines(path):
     with open(path) as f:
         return [ln.rstrip("\n") for ln in f.read().split("\n")]
+
+
+# --------------------------------------------------------------------------
+# round 4: how the caller presents a valid request (``case["pres"]``, absent = the plain calls of the earlier rounds)
+# --------------------------------------------------------------------------
+
+_UNSET = object()
+_NP_INT = {"int64": np.int64, "int32": np.int32, "int16": np.int16, "int8": np.int8, "uint8": np.uint8, "uint16": np.uint16,
+           "uint32": np.uint32, "uint64": np.uint64}
+_EXPORT_FORMS = ["plain", "pos-None", "pos-None-None", "kw-None", "all-kw-reordered", "pos-exact-formats", "kw-exact-formats",
+                 "pos-exact-data-format"]
+# documented order (pinned from the signatures on the unchanged tree): export_data(data, filename, fmt_data, fmt_weights),
+# import_data(filename, index_base)
+_BASE_FORMS = ["kw-int", "pos-int", "pos-int", "pos-int64", "kw-int64", "pos-int32", "pos-uint8", "pos-int8", "pos-int16",
+               "pos-uint16", "pos-uint32", "kw-uint8", "allkw-int", "allkw-int32"]
+
+
+def _pres(case) -> dict:
+    return case.get("pres") or {}
+
+
+def _as_path(form, p):
+    return pathlib.Path(p) if form == "Path" else p
+
+
+def _export(case, X, p):
+    """export_data(X, p) with the default formats, in the presentation the case names"""
+    pr = _pres(case)
+    f, q = pr.get("export", "plain"), _as_path(pr.get("export_path", "str"), p)
+    fd, fw = pr.get("fmt_data", "%.16e"), pr.get("fmt_weights", "%.17g")  # both exact: 17 significant digits
+    if f == "pos-None":
+        return ttb.export_data(X, q, None)
+    if f == "pos-None-None":
+        return ttb.export_data(X, q, None, None)
+    if f == "kw-None":
+        return ttb.export_data(X, q, fmt_data=None, fmt_weights=None)
+    if f == "all-kw-reordered":
+        return ttb.export_data(fmt_weights=None, filename=q, data=X, fmt_data=None)
+    if f == "pos-exact-formats":
+        return ttb.export_data(X, q, fd, fw)
+    if f == "kw-exact-formats":
+        return ttb.export_data(X, q, fmt_weights=fw, fmt_data=fd)
+    if f == "pos-exact-data-format":
+        return ttb.export_data(X, q, fd)
+    return ttb.export_data(X, q)
+
+
+def _base_value(form, base):
+    typ = _NP_INT.get(form.split("-")[1])
+    if typ is None:
+        return int(base)
+    info = np.iinfo(typ)
+    return typ(base) if info.min <= base <= info.max else np.int64(base)
+
+
+def _import(case, p, base=_UNSET):
+    """import_data(p) / import_data(p, index_base=base) in the presentation the case names.  Files without subscripts
+    (dense, Kruskal, matrix) may be read with an index base, too: it has nothing to act on."""
+    pr = _pres(case)
+    q = _as_path(pr.get("import_path", "str"), p)
+    if base is _UNSET:
+        base = pr.get("ignored_base")
+        if base is None:
+            return ttb.import_data(q)
+    f = pr.get("base_form", "kw-int")
+    b = _base_value(f, base)
+    if f.startswith("pos-"):
+        return ttb.import_data(q, b)
+    if f.startswith("allkw-"):
+        return ttb.import_data(index_base=b, filename=q)
+    return ttb.import_data(q, index_base=b)
+
+
+def _present_array(case, A, order="K"):
+    """the same numbers as a read-only array / as a strided view of a larger buffer (pres['view'])"""
+    view = _pres(case).get("view", "plain")
+    if view == "readonly":
+        A = A.copy(order=order)
+        A.flags.writeable = False
+        return A
+    if view == "strided" and A.ndim >= 1:
+        big = np.zeros((2 * A.shape[0],) + A.shape[1:], dtype=A.dtype)
+        big[1::2] = A
+        return big[1::2]
+    return A.copy(order=order)
+
+
+def _pres_labels(case):
+    pr = _pres(case)
+    return [f"pres-{k}-{pr[k]}" for k in ("export", "export_path", "import_path", "base_form", "view", "subs_dtype", "copy",
+                                          "ignored_base", "log_debug") if k in pr]
 
 
 def _expect_header(ctx, lines, kind, shape, what):
@@ -273,6 +388,8 @@ def _make_tensor(ctx, case):
             return ttb.tensor(np.ascontiguousarray(A.copy()), shape, copy=False), A
     except Exception:  # noqa: BLE001   (growth / permutation themselves are C04's / C07's subject)
         ctx.skip("building-the-state-raised:" + prov)
+    if _pres(case).get("view", "plain") != "plain":
+        return ttb.tensor(_present_array(case, A, "F"), shape, copy=_pres(case).get("copy", True)), A
     return ttb.tensor(A.copy(order="F"), shape), A
 
 
@@ -285,20 +402,20 @@ def rt_tensor(ctx, case):
             and (np.array_equal(bits(T.data), bits(A)) if isfloat else np.array_equal(T.data, A))):
         ctx.skip("state-differs-from-model:" + case.get("prov", "ctor"))
     ctx.label(*gen.shape_classes(shape), "dtype-" + case["dtype"], "prov-" + case.get("prov", "ctor"),
-              "buffer-not-F" if gen.is_grown(T) else "buffer-F",
+              "buffer-not-F" if gen.is_grown(T) else "buffer-F", *_pres_labels(case),
               "npint-in-shape" if any(isinstance(x, np.integer) for x in T.shape) else "int-shape")
     ctx.nt = len(set(shape)) >= 2 and (not isfloat or needs17(A.ravel().tolist()))
     flatF = [float(v) for v in A.ravel(order="F")]
     with Scratch() as sc:
         p = sc.path()
         with ctx.sut("export_data(tensor)"):
-            ttb.export_data(T, p)
+            _export(case, T, p)
         lines = _read_lines(p)
         k = _expect_header(ctx, lines, "tensor", shape, "tensor")
         toks = [t for ln in lines[k:] for t in ln.split()]
         ctx.check(_tokens_equal_bits(toks, flatF), "tensor-file-values-first-index-fastest", toks[:6])
         with ctx.sut("import_data(tensor)"):
-            R = ttb.import_data(p)
+            R = _import(case, p)
     ctx.require(isinstance(R, ttb.tensor), "tensor-roundtrip-type", type(R).__name__)
     ctx.check(tuple(int(s) for s in R.shape) == shape, "tensor-roundtrip-shape", R.shape)
     ctx.require(isinstance(R.data, np.ndarray) and R.data.shape == shape, "tensor-roundtrip-data-shape",
@@ -387,17 +504,31 @@ def _make_sptensor(ctx, case):
         shape = shape[:m] + (H,) + shape[m + 1:]
     if nnz == 0:
         return ttb.sptensor(shape=shape), shape, subs, vals
+    # round 4: the subscripts as the caller holds them (int32 / small unsigned / uint64 arrays, read-only or strided); the
+    # model ``subs`` stays int64
+    pr = _pres(case)
+    sd = _NP_INT.get(pr.get("subs_dtype", "int64"), np.int64)
+    if subs.min() < np.iinfo(sd).min or subs.max() > np.iinfo(sd).max:
+        sd = np.int64
+    kw = dict(copy=pr["copy"]) if "copy" in pr else {}
+
+    def subs_in():
+        return _present_array(case, subs.astype(sd))
+
+    def vals_in():
+        return _present_array(case, vals)
+
     try:
         if prov == "npint-shape":
             form = case.get("a", 0) % (2 if case.get("huge") else 3)  # (int32 entries cannot hold the very long mode)
             sh = (lambda: tuple(np.int64(s) for s in shape), lambda: np.array(shape, dtype=np.int64),
                   lambda: [np.int32(s) for s in shape])[form]()
-            return ttb.sptensor(subs.copy(), vals.copy(), sh), shape, subs, vals
+            return ttb.sptensor(subs_in(), vals_in(), sh, **kw), shape, subs, vals
         if prov == "explicit-zero":
             for i, z in enumerate(case["zeros"]):
                 if z is not None:
                     vals[i, 0] = z
-            return ttb.sptensor(subs.copy(), vals.copy(), shape), shape, subs, vals
+            return ttb.sptensor(subs_in(), vals_in(), shape, **kw), shape, subs, vals
         if prov == "scaled-by-zero":  # scale along a mode by a vector with zeros: the products are stored, zeros included
             m = case.get("a", 0) % N
             f = np.ones(shape[m])
@@ -432,6 +563,9 @@ def _make_sptensor(ctx, case):
         if type(e).__name__ == "Skip":
             raise
         ctx.skip("building-the-state-raised:" + prov)
+    if pr:
+        with ctx.sut("sptensor(subs, vals, shape)/presented"):
+            return ttb.sptensor(subs_in(), vals_in(), shape, **kw), shape, subs, vals
     return ttb.sptensor(subs.copy(), vals.copy(), shape), shape, subs, vals
 
 
@@ -453,7 +587,10 @@ def rt_sptensor(ctx, case):
               f"base{case['base']}", "prov-" + prov,
               "stored-zero" if nnz and bool(np.any(vals == 0)) else "no-stored-zero",
               "npint-in-shape" if any(isinstance(x, np.integer) for x in S.shape) else "int-shape",
-              "huge-mode" if case.get("huge") else "small-modes",
+              "huge-mode" if case.get("huge") else "small-modes", *_pres_labels(case),
+              *(["stored-subs-" + str(S.subs.dtype)] if nnz else []),
+              *(["a-subscript-is-the-maximum-of-its-dtype"] if nnz and np.issubdtype(S.subs.dtype, np.integer)
+                and int(subs.max()) == np.iinfo(S.subs.dtype).max else []),
               *(["mode-longer-than-2^53"] if max(shape) > 2 ** 53 else []),
               *(["file-subscript-not-a-float64"] if nnz and any(int(float(x)) != x for x in (subs + 1).ravel().tolist()) else []),
               *(["other-base-subscript-not-a-float64"] if nnz and any(
@@ -463,7 +600,7 @@ def rt_sptensor(ctx, case):
     with Scratch() as sc:
         p = sc.path()
         with ctx.sut("export_data(sptensor)"):
-            ttb.export_data(S, p)
+            _export(case, S, p)
         lines = _read_lines(p)
         k = _expect_header(ctx, lines, "sptensor", shape, "sptensor")
         ctx.require(len(lines) > k and lines[k].split() == [str(nnz)], "sptensor-nnz-line", lines[k:k + 1])
@@ -481,7 +618,7 @@ def rt_sptensor(ctx, case):
             ctx.check(_tokens_equal_bits([b[N] for b in body], [float(v) for v in vals.reshape(-1)]),
                       "sptensor-file-values", [b[N] for b in body][:4])
         with ctx.sut("import_data(sptensor)"):
-            R = ttb.import_data(p)
+            R = _import(dict(case, pres=dict(_pres(case), ignored_base=None)), p)
         _check_sp(ctx, R, shape, subs, vals, case, "sptensor-roundtrip")
         # another index base: the harness rewrites the subscripts of the file it has just validated; the explicit
         # default base and the plain call come after it, so an index base that sticks from the previous call shows
@@ -493,14 +630,14 @@ def rt_sptensor(ctx, case):
                 for row, toks in zip(subs.tolist(), body):
                     f.write(" ".join(str(s + b) for s in row) + " " + toks[N] + "\n")
             with ctx.sut("import_data(sptensor, index_base=b)"):
-                R2 = ttb.import_data(p2, index_base=b)
+                R2 = _import(case, p2, b)
             _check_sp(ctx, R2, shape, subs, vals, case, "sptensor-other-base")
             with ctx.sut("import_data(sptensor) after another base"):
-                R3 = ttb.import_data(p)
+                R3 = _import(dict(case, pres=dict(_pres(case), ignored_base=None)), p)
             _check_sp(ctx, R3, shape, subs, vals, case, "sptensor-roundtrip-after-other-base")
         # explicit default base
         with ctx.sut("import_data(sptensor, index_base=1)"):
-            R1 = ttb.import_data(p, index_base=1)
+            R1 = _import(case, p, 1)
         _check_sp(ctx, R1, shape, subs, vals, case, "sptensor-roundtrip-base1")
     ctx.check((S.subs.size == 0 and nnz == 0) or (np.array_equal(S.subs, keep_subs) and np.array_equal(
         bits(S.vals) if isfloat else S.vals, bits(keep_vals) if isfloat else keep_vals)), "export-leaves-object")
@@ -593,7 +730,9 @@ def rt_ktensor(ctx, case):
         w0 = np.array(case["weights"], dtype=float)
     given = [np.asfortranarray(f.copy()) if lay == "F" else np.ascontiguousarray(f.copy())
              for f, lay in zip(fms0, case["layout"])]
-    K = ttb.ktensor(given, w0.copy(), copy=case["copy"])
+    if _pres(case).get("view", "plain") != "plain":
+        given = [_present_array(case, g) for g in given]
+    K = ttb.ktensor(given, _present_array(case, w0) if _pres(case).get("view") == "readonly" else w0.copy(), copy=case["copy"])
     prov = case.get("prov", "ctor")
     if prov != "ctor":
         K = _derive_ktensor(ctx, K, case)
@@ -606,7 +745,7 @@ def rt_ktensor(ctx, case):
     w = np.array(K.weights, dtype=float, copy=True)
     shape, r = tuple(f.shape[0] for f in fms), int(w.size)
     ctx.label(f"order{len(shape)}", f"rank{r}", "non-square-factor" if any(n != r for n in shape) else "square-factors",
-              "has-singleton" if 1 in shape else "no-singleton", "prov-" + prov,
+              "has-singleton" if 1 in shape else "no-singleton", "prov-" + prov, *_pres_labels(case),
               "some-factor-C-ordered" if any(f.shape[0] > 1 and f.shape[1] > 1 and not f.flags["F_CONTIGUOUS"]
                                              for f in K.factor_matrices) else "factors-F-ordered")
     allv = w.tolist() + [v for f in fms for v in f.ravel().tolist()]
@@ -614,7 +753,7 @@ def rt_ktensor(ctx, case):
     with Scratch() as sc:
         p = sc.path()
         with ctx.sut("export_data(ktensor)"):
-            ttb.export_data(K, p)
+            _export(case, K, p)
         lines = _read_lines(p)
         k = _expect_header(ctx, lines, "ktensor", shape, "ktensor")
         ctx.require(len(lines) > k + 1 and lines[k].split() == [str(r)], "ktensor-rank-line", lines[k:k + 1])
@@ -630,7 +769,7 @@ def rt_ktensor(ctx, case):
             ctx.check(rows_ok, "ktensor-file-factor-row-by-row", blk[3:5])
             pos += 3 + n_
         with ctx.sut("import_data(ktensor)"):
-            R = ttb.import_data(p)
+            R = _import(case, p)
     ctx.require(isinstance(R, ttb.ktensor), "ktensor-roundtrip-type", type(R).__name__)
     ctx.check(tuple(int(s) for s in R.shape) == shape, "ktensor-roundtrip-shape", R.shape)
     ctx.check(same_bits(R.weights, w), "ktensor-roundtrip-weights-bits", ref.diff_info(R.weights, w))
@@ -673,19 +812,21 @@ def rt_matrix(ctx, case):
         big = np.zeros((2 * m, 2 * n), dtype=A.dtype)
         big[::2, ::2] = A
         M = big[::2, ::2]
-    ctx.label("layout-" + lay, "square" if m == n else "non-square", "dtype-" + case["dtype"],
+    if _pres(case).get("view") == "readonly":
+        M.flags.writeable = False
+    ctx.label(*_pres_labels(case), "layout-" + lay, "square" if m == n else "non-square", "dtype-" + case["dtype"],
               "vector-like" if 1 in (m, n) else "proper-matrix")
     ctx.nt = m != n and m > 1 and n > 1 and (case["dtype"] != "float" or needs17(A.ravel().tolist()))
     with Scratch() as sc:
         p = sc.path()
         with ctx.sut("export_data(matrix)"):
-            ttb.export_data(M, p)
+            _export(case, M, p)
         lines = _read_lines(p)
         k = _expect_header(ctx, lines, "matrix", (m, n), "matrix")
         toks = [t for ln in lines[k:] for t in ln.split()]
         ctx.check(_tokens_equal_bits(toks, [float(v) for v in A.reshape(-1)]), "matrix-file-values-row-by-row", toks[:6])
         with ctx.sut("import_data(matrix)"):
-            R = ttb.import_data(p)
+            R = _import(case, p)
     ctx.require(isinstance(R, np.ndarray), "matrix-roundtrip-type", type(R).__name__)
     ctx.require(R.shape == (m, n), "matrix-roundtrip-shape", R.shape)
     if case["dtype"] == "float":
@@ -1079,3 +1220,391 @@ def rt_specials(ctx, case):
 
 
 _RT.update(tensor=rt_tensor, sptensor=rt_sptensor, ktensor=rt_ktensor, matrix=rt_matrix)
+
+
+# --------------------------------------------------------------------------
+# round 4, class 11 / 13: the same request in another presentation (judged by the clauses of the plain cells)
+# --------------------------------------------------------------------------
+
+_NARROW = ["int32", "int32", "uint8", "uint8", "uint16", "uint64", "int16", "int8", "uint32", "int64"]
+
+
+@st.composite
+def _presentation_case(draw, tier):
+    """one object of the small cells + how the caller hands the (valid) arguments over: optional arguments positionally
+    in their documented order / by keyword in any order / as explicit None, file name as str or pathlib.Path, the index
+    base as Python int or NumPy integer scalar, sparse subscripts in int32 / small unsigned / uint64 arrays (with a mode
+    long enough that a stored subscript is the largest value of that dtype), read-only or strided arrays, DEBUG logging
+    switched on for the whole round trip"""
+    kind = draw(st.sampled_from(["sptensor", "sptensor", "sptensor", "tensor", "ktensor", "matrix"]))
+    obj = draw({"tensor": _tensor_case(tier, max_cells=24), "sptensor": _sptensor_case(tier, max_cells=24),
+                "ktensor": _ktensor_case(tier, max_size=3), "matrix": _matrix_case(tier, max_size=4)}[kind])
+    pres = dict(export=draw(st.sampled_from(_EXPORT_FORMS)), export_path=draw(st.sampled_from(["str", "Path"])),
+                import_path=draw(st.sampled_from(["str", "Path"])), base_form=draw(st.sampled_from(_BASE_FORMS)),
+                view=draw(st.sampled_from(["plain", "readonly", "strided"])), log_debug=draw(st.sampled_from([False, False, True])))
+    if pres["export"].endswith("formats") or pres["export"].endswith("format"):
+        pres["fmt_data"], pres["fmt_weights"] = draw(st.sampled_from([("%.16e", "%.17g"), ("%.17g", "%.16e"), ("%.20e", "%.17g"),
+                                                                       ("%.17g", "%.20e")]))
+    if kind != "sptensor":
+        pres["ignored_base"] = draw(st.sampled_from([None, 1, 0, 5]))
+        if kind == "tensor":
+            obj = dict(obj, prov="ctor")
+            pres["copy"] = draw(st.booleans())
+    else:
+        pres["copy"] = draw(st.booleans())
+        if obj["prov"] not in ("ctor", "npint-shape", "explicit-zero"):
+            obj = dict(obj, prov="ctor", zeros=[])
+        sd = pres["subs_dtype"] = draw(st.sampled_from(_NARROW))
+        top = int(np.iinfo(_NP_INT[sd]).max)
+        huge = obj.get("huge")
+        if sd not in ("int64", "uint64") and draw(st.integers(0, 2)) == 0:
+            # a mode exactly as long as the dtype allows, with stored subscripts at its far end
+            m = draw(st.integers(0, len(obj["shape"]) - 1))
+            H = top + 1
+            pos = st.one_of(st.just(H - 1), st.integers(H - 4, H - 1), st.integers(0, H - 1))
+            n_m = obj["shape"][m]
+            huge = [m, H, sorted(draw(st.lists(pos, min_size=n_m, max_size=n_m, unique=True)))]
+        elif huge is not None and huge[1] - 1 > top:
+            huge = None
+        obj = dict(obj, huge=huge)
+    return dict(kind=kind, obj=dict(obj, pres=pres))
+
+
+def subs_dtype_maximum_stored(case):
+    """a stored subscript equals the largest value of the (narrower than int64) dtype the caller's subscript array has"""
+    obj = case.get("obj") or {}
+    pr, huge = obj.get("pres") or {}, obj.get("huge")
+    sd = pr.get("subs_dtype")
+    if case.get("kind") != "sptensor" or sd not in _NP_INT or sd in ("int64", "uint64") or not huge or len(huge) < 3:
+        return False
+    m, H, hmap = huge
+    top = int(np.iinfo(_NP_INT[sd]).max)
+    stored = [hmap[s[m]] if len(s) > m and s[m] < len(hmap) else -1 for s in obj.get("subs", [])]
+    if H - 1 != top or top not in stored:
+        return False
+    # the array keeps the dtype only if every subscript of every mode fits (it does: the other modes are small)
+    return True
+
+
+PREDICATES["subs_dtype_maximum_stored"] = subs_dtype_maximum_stored
+
+
+def rejected_sparse_export_2way_single_nonzero(case):
+    """a history with a rejected (format that is none) export of a 2-way sparse tensor holding exactly one nonzero"""
+    return any(st_.get("op") == "bad-export" and st_.get("how") == "bad-fmt_data" and st_["x"]["kind"] == "sptensor"
+               and len(st_["x"]["obj"]["shape"]) == 2 and len(st_["x"]["obj"]["subs"]) == 1 for st_ in case.get("steps", []))
+
+
+PREDICATES["rejected_sparse_export_2way_single_nonzero"] = rejected_sparse_export_2way_single_nonzero
+
+
+def _with_debug_logging(on, fn):
+    """run fn() with the root logger at DEBUG (records go to a NullHandler): what is computed must not depend on it"""
+    if not on:
+        return fn()
+    root = logging.getLogger()
+    level, disabled, handlers = root.level, logging.root.manager.disable, root.handlers[:]
+    root.handlers[:] = [logging.NullHandler()]  # (logging.warning() installs a stderr handler when the root has none)
+    try:
+        logging.disable(logging.NOTSET)
+        root.setLevel(logging.DEBUG)
+        return fn()
+    finally:
+        root.setLevel(level)
+        root.handlers[:] = handlers
+        logging.disable(disabled)
+
+
+@cell("C16/presentation", strategy=_presentation_case, quick=300, thorough=5000, shards=(2, 8))
+def rt_presentation(ctx, case):
+    """the round trip of the plain cells with the arguments handed over the way ordinary callers do"""
+    ctx.label("presented-" + case["kind"])
+    _with_debug_logging(_pres(case["obj"]).get("log_debug"), lambda: _RT[case["kind"]](ctx, case["obj"]))
+
+
+# --------------------------------------------------------------------------
+# round 4, class 11: explicit formats - positional (documented order: fmt_data, then fmt_weights) == keyword, and each
+# format reaches the numbers its name says
+# --------------------------------------------------------------------------
+
+_FMT_FLOAT = ["%.3e", "%.17g", "%.16e", "%.4f", "%g", "%12.5e", "%.20e", "%+.2e"]  # (C printf == Python % for doubles)
+
+
+@st.composite
+def _format_case(draw, tier):
+    kind = draw(st.sampled_from(["ktensor", "ktensor", "sptensor", "tensor", "matrix"]))
+    V = st.one_of(st.floats(-1e6, 1e6, allow_nan=False, width=64), st.sampled_from([0.1, 1.0 / 3.0, -2.5, 1e-7, 123456.789]))
+    fd = draw(st.sampled_from(_FMT_FLOAT))
+    fw = draw(st.sampled_from([f for f in _FMT_FLOAT if f != fd]))
+    if kind == "ktensor":
+        N, r = draw(st.integers(1, 3)), draw(st.integers(1, 3))
+        shape = [draw(st.integers(1, 3)) for _ in range(N)]
+        nums = draw(st.lists(V, min_size=r * (1 + sum(shape)), max_size=r * (1 + sum(shape))))
+        return dict(kind=kind, shape=shape, rank=r, nums=nums, fmt_data=fd, fmt_weights=fw,
+                    give=draw(st.sampled_from(["both", "both", "data", "weights"])), path=draw(st.sampled_from(["str", "Path"])))
+    shape = [draw(st.integers(1, 5)), draw(st.integers(1, 5))] if kind == "matrix" else draw(gen.shapes(tier, max_cells=12))
+    n = ref.prod(shape)
+    nums = draw(st.lists(V.filter(lambda v: v != 0), min_size=n, max_size=n))
+    keep = [i for i in range(n) if draw(st.booleans())] or [0]
+    return dict(kind=kind, shape=shape, nums=nums, keep=keep, fmt_data=fd, fmt_weights=fw,
+                give=draw(st.sampled_from(["both", "data", "data"])), path=draw(st.sampled_from(["str", "Path"])))
+
+
+def _py_tokens(fmt, values):
+    return [t for v in values for t in (fmt % float(v)).split()]
+
+
+@cell("C16/format-arguments", strategy=_format_case, quick=150, thorough=2500, shards=(2, 8))
+def fmt_arguments(ctx, case):
+    kind, shape, fd, fw = case["kind"], tuple(case["shape"]), case["fmt_data"], case["fmt_weights"]
+    nums = np.array(case["nums"], dtype=float)
+    ctx.label("fmt-" + kind, "give-" + case["give"], "path-" + case["path"])
+    ctx.nt = True
+    if kind == "ktensor":
+        r = case["rank"]
+        w, offs = nums[:r].copy(), np.cumsum([r] + [n * r for n in shape])
+        fms = [nums[offs[i]:offs[i + 1]].reshape(n, r).copy() for i, n in enumerate(shape)]
+        X = ttb.ktensor([f.copy() for f in fms], w.copy())
+        data_vals, weight_vals = [v for f in fms for v in f.ravel().tolist()], w.tolist()
+    elif kind == "sptensor":
+        allsubs = ref.all_subs_F(shape)
+        subs = np.array([list(allsubs[i]) for i in case["keep"]], dtype=np.int64).reshape(len(case["keep"]), len(shape))
+        vals = nums[case["keep"]].reshape(-1, 1)
+        X = ttb.sptensor(subs.copy(), vals.copy(), shape)
+        data_vals, weight_vals = vals.ravel().tolist(), []
+    elif kind == "tensor":
+        A = gen.arr_F(shape, nums.tolist())
+        X = ttb.tensor(A.copy(order="F"), shape)
+        data_vals, weight_vals = A.ravel(order="F").tolist(), []
+    else:
+        A = nums.reshape(shape)
+        X = A.copy()
+        data_vals, weight_vals = A.ravel().tolist(), []
+    give = case["give"]
+    with Scratch() as sc:
+        pp, pk = _as_path(case["path"], sc.path("positional.tns")), sc.path("keyword.tns")
+        with ctx.sut(f"export_data({kind}, file, formats positionally)"):
+            if give == "both":
+                ttb.export_data(X, pp, fd, fw)
+            elif give == "data":
+                ttb.export_data(X, pp, fd)
+            else:
+                ttb.export_data(X, pp, None, fw)
+        with ctx.sut(f"export_data({kind}, file, formats by keyword)"):
+            kw = dict(fmt_data=fd) if give == "data" else (dict(fmt_weights=fw) if give == "weights" else dict(fmt_weights=fw, fmt_data=fd))
+            ttb.export_data(X, pk, **kw)
+        with open(pp) as f1, open(pk) as f2:
+            tp, tk = f1.read(), f2.read()
+        ctx.check(tp == tk, "formats-positional-in-documented-order-equal-keyword", (tp[:120], tk[:120]))
+        # each format reaches the numbers its name says (harness-side formatting of the harness' own numbers)
+        use_d = fd if give in ("both", "data") else "%.16e"
+        use_w = fw if give in ("both", "weights") else "%.16e"
+        lines = [ln for ln in tk.split("\n")]
+        if kind == "ktensor":
+            ctx.require(len(lines) > 5, "format-file-has-header", lines[:5])
+            ctx.check(lines[4].split() == _py_tokens(use_w, weight_vals), "fmt_weights-formats-the-weights", lines[4])
+            toks, pos = [], 5
+            for n_ in shape:
+                toks += [t for ln in lines[pos + 3:pos + 3 + n_] for t in ln.split()]
+                pos += 3 + n_
+            ctx.check(toks == _py_tokens(use_d, data_vals), "fmt_data-formats-the-factor-entries", toks[:4])
+        elif kind == "sptensor":
+            toks = [ln.split()[-1] for ln in lines[4:] if ln.strip()]
+            ctx.check(toks == _py_tokens(use_d, data_vals), "fmt_data-formats-the-values", toks[:4])
+        else:
+            toks = [t for ln in lines[3:] for t in ln.split()]
+            ctx.check(toks == _py_tokens(use_d, data_vals), "fmt_data-formats-the-values", toks[:4])
+
+
+# --------------------------------------------------------------------------
+# round 4, class 12: state after a rejected request (histories in a forked child, like C16/sequence)
+# --------------------------------------------------------------------------
+
+_BAD_FORMATS = ["%q", "%s %s", "no conversion", "%c", 5]  # every one of them raises on the first number it formats
+_BAD_EXPORT = ["bad-fmt_data", "bad-fmt_data", "bad-fmt_weights", "unsupported-type"]
+_BAD_IMPORT = ["missing-file", "bad-type-line", "order-line-disagrees-with-sizes", "last-line-missing", "value-is-not-a-number"]
+
+
+@st.composite
+def _small_obj(draw, tier, kinds=("tensor", "sptensor", "sptensor", "ktensor", "matrix")):
+    kind = draw(st.sampled_from(list(kinds)))
+    obj = draw({"tensor": _tensor_case(tier, max_cells=12), "sptensor": _sptensor_case(tier, max_cells=12),
+                "ktensor": _ktensor_case(tier, max_size=3), "matrix": _matrix_case(tier, max_size=3)}[kind])
+    if kind != "ktensor":
+        obj = dict(obj, dtype="float", huge=None)
+        for k in ("data", "vals"):
+            if k in obj:
+                obj[k] = draw(st.lists(FULL_NZ if k == "vals" else FULL, min_size=len(obj[k]), max_size=len(obj[k])))
+        if kind == "matrix":
+            obj["rows"] = [draw(st.lists(FULL, min_size=obj["n"], max_size=obj["n"])) for _ in range(obj["m"])]
+        if kind == "sptensor" and not obj["subs"]:  # at least one stored value, so that a format is used at all
+            obj = dict(obj, subs=[[0] * len(obj["shape"])], vals=[1.5], zeros=[], pattern="one")
+    return dict(kind=kind, obj=dict(obj, prov="ctor", zeros=[]))
+
+
+@st.composite
+def _rejected_case(draw, tier):
+    """2..4 steps, at least one rejected request, and the last step is a valid round trip judged like a first call"""
+    n = draw(st.integers(2, 4))
+    which = draw(st.integers(0, n - 2))
+    steps = []
+    for i in range(n):
+        op = draw(st.sampled_from(["roundtrip", "bad-export", "bad-import"]))
+        if i == which and op == "roundtrip":
+            op = draw(st.sampled_from(["bad-export", "bad-import"]))
+        if i == n - 1:
+            op = "roundtrip"
+        if op == "roundtrip":
+            steps.append(dict(op=op, **draw(_small_obj(tier, kinds=("sptensor", "sptensor", "tensor", "ktensor", "matrix")))))
+        elif op == "bad-export":
+            how = draw(st.sampled_from(_BAD_EXPORT))
+            x = draw(_small_obj(tier, kinds=("ktensor",) if how == "bad-fmt_weights" else ("tensor", "sptensor", "ktensor", "matrix")))
+            onto = draw(st.sampled_from(["no-file", "file-of-another-object", "file-of-another-object"]))
+            steps.append(dict(op=op, how=how, fmt=draw(st.sampled_from(_BAD_FORMATS)), onto=onto, x=x,
+                              x0=draw(_small_obj(tier)) if onto != "no-file" else None,
+                              thing=draw(st.sampled_from(["list", "None", "tenmat", "scalar", "str", "tuple-of-arrays"]))))
+        else:
+            steps.append(dict(op=op, how=draw(st.sampled_from(_BAD_IMPORT)), x=draw(_small_obj(tier)),
+                              base=draw(st.sampled_from([None, None, 0, 1, 2, 7])),
+                              base_form=draw(st.sampled_from(["kw-int", "pos-int", "pos-int64"]))))
+    return dict(steps=steps)
+
+
+def _build_plain(ctx, kind, obj):
+    try:
+        if kind == "tensor":
+            return ttb.tensor(gen.arr_F(obj["shape"], [float(v) for v in obj["data"]]).copy(order="F"), tuple(obj["shape"]))
+        if kind == "sptensor":
+            n = len(obj["subs"])
+            return ttb.sptensor(np.array(obj["subs"], dtype=np.int64).reshape(n, len(obj["shape"])),
+                                np.array(obj["vals"], dtype=float).reshape(n, 1), tuple(obj["shape"]))
+        if kind == "ktensor":
+            return ttb.ktensor([np.array(f, dtype=float).reshape(n_, obj["rank"]) for f, n_ in zip(obj["factors"], obj["shape"])],
+                               np.array(obj["weights"], dtype=float))
+        return np.array(obj["rows"], dtype=float).reshape(obj["m"], obj["n"])
+    except Exception:  # noqa: BLE001
+        ctx.skip("building-the-object-raised")
+
+
+def _file_bytes(p):
+    if not os.path.exists(p):
+        return None
+    with open(p, "rb") as f:
+        return f.read()
+
+
+def _unsupported(thing):
+    if thing == "tenmat":
+        try:
+            return ttb.tensor(np.arange(6.0).reshape(2, 3)).to_tenmat(np.array([0]))
+        except Exception:  # noqa: BLE001   (matricization is another property's subject)
+            return [1.0]
+    return {"list": [[1.0, 2.0], [3.0, 4.0]], "None": None, "scalar": 2.5, "str": "tensor",
+            "tuple-of-arrays": (np.ones((2, 2)), np.ones(2))}[thing]
+
+
+def _rejected_export(ctx, sc, i, step):
+    kind, how = step["x"]["kind"], step["how"]
+    X = _build_plain(ctx, kind, step["x"]["obj"])
+    sx = _state(kind, X)
+    p = sc.path(f"step{i}.tns")
+    s0 = kind0 = None
+    if step["onto"] != "no-file":  # the path holds a valid export of another object
+        kind0 = step["x0"]["kind"]
+        X0 = _build_plain(ctx, kind0, step["x0"]["obj"])
+        s0 = _state(kind0, X0)
+        with ctx.sut(f"export_data({kind0})"):
+            ttb.export_data(X0, p)
+        with ctx.sut(f"import_data({kind0})"):
+            R0 = ttb.import_data(p)
+        ctx.require(_holds(kind0, R0, s0), "rejected/earlier-file-reads-back")
+    before = _file_bytes(p)
+    ctx.label("rejected-export-" + how, "onto-" + step["onto"])
+    if how == "unsupported-type":
+        ctx.raises(f"export_data({step['thing']})/unsupported-type", ttb.export_data, _unsupported(step["thing"]), p)
+        # nothing about the request is valid: the destination is as it was
+        ctx.check(_file_bytes(p) == before, "rejected-export-of-unsupported-type-touches-the-destination")
+    elif how == "bad-fmt_weights":
+        ctx.raises("export_data(ktensor)/fmt_weights-not-a-format", ttb.export_data, X, p, None, step["fmt"])
+    else:
+        ctx.raises(f"export_data({kind})/fmt_data-not-a-format", ttb.export_data, X, p, step["fmt"])
+    ctx.check(_holds(kind, X, sx), "rejected-export-changes-the-object")
+    # whatever the rejected request left at the path does not read as an object that was never written there
+    try:
+        R = ttb.import_data(p)
+    except Exception:  # noqa: BLE001
+        ctx.label("after-rejected-export-import-raises")
+    else:
+        ctx.label("after-rejected-export-import-answers")
+        tag = kind + ("-2way-single-nonzero" if kind == "sptensor" and len(sx["shape"]) == 2 and sx["subs"].shape[0] == 1 else "")
+        ctx.check(s0 is not None and _holds(kind0, R, s0),
+                  "rejected-export-leaves-a-file-that-imports-as-something-else/" + tag, type(R).__name__)
+    # the same object, valid request, same path
+    with ctx.sut(f"export_data({kind}) after a rejected export"):
+        ttb.export_data(X, p)
+    with ctx.sut(f"import_data({kind}) after a rejected export"):
+        R = ttb.import_data(p)
+    ctx.check(_holds(kind, R, sx), "roundtrip-after-rejected-export")
+
+
+def _rejected_import(ctx, sc, i, step):
+    kind, how = step["x"]["kind"], step["how"]
+    X = _build_plain(ctx, kind, step["x"]["obj"])
+    sx = _state(kind, X)
+    good, bad = sc.path(f"step{i}-good.tns"), sc.path(f"step{i}-bad.tns")
+    with ctx.sut(f"export_data({kind})"):
+        ttb.export_data(X, good)
+    with open(good) as f:
+        lines = f.read().split("\n")
+    while lines and not lines[-1].strip():
+        lines.pop()
+    ctx.require(len(lines) >= 4, "rejected/file-has-header-and-body", lines[:4])
+    if how == "bad-type-line":
+        lines[0] = {"tensor": "tensors", "sptensor": "sparse", "ktensor": "", "matrix": "array"}[kind]
+    elif how == "order-line-disagrees-with-sizes":
+        lines[1] = str(int(lines[1]) + (1 if i % 2 else -1)) if lines[1].strip().isdigit() else "x"
+    elif how == "last-line-missing":
+        lines.pop()
+    elif how == "value-is-not-a-number":
+        toks = lines[-1].split()
+        lines[-1] = " ".join(toks[:-1] + ["abc"])
+    if how != "missing-file":
+        with open(bad, "w") as f:
+            f.write("\n".join(lines) + "\n")
+    before = _file_bytes(bad)
+    ctx.label("rejected-import-" + how, "rejected-import-base-" + str(step["base"]))
+    args = () if step["base"] is None else (_base_value(step["base_form"], step["base"]),)
+    if step["base"] is not None and step["base_form"].startswith("kw-"):
+        ctx.raises(f"import_data({kind})/{how}", lambda: ttb.import_data(bad, index_base=args[0]))
+    else:
+        ctx.raises(f"import_data({kind})/{how}", ttb.import_data, bad, *args)
+    ctx.check(_file_bytes(bad) == before, "rejected-import-changes-the-file")
+    with ctx.sut(f"import_data({kind}) after a rejected import"):
+        R = ttb.import_data(good)
+    ctx.check(_holds(kind, R, sx), "import-after-rejected-import")
+
+
+def _rejected_body(ctx, case):
+    rejected = 0
+    with Scratch() as sc:
+        for i, step in enumerate(case["steps"]):
+            if step["op"] == "roundtrip":
+                ctx.label("roundtrip-after-%d-rejected" % min(rejected, 2), "roundtrip-" + step["kind"])
+                _RT[step["kind"]](ctx, step["obj"])
+            elif step["op"] == "bad-export":
+                _rejected_export(ctx, sc, i, step)
+                rejected += 1
+            else:
+                _rejected_import(ctx, sc, i, step)
+                rejected += 1
+    ctx.nt = rejected >= 1
+    ctx.label(f"steps{len(case['steps'])}")
+
+
+@cell("C16/rejected", strategy=_rejected_case, quick=80, thorough=800, shards=(2, 8))
+def rt_rejected(ctx, case):
+    """rejected exports (a format that is none, an unsupported object) and rejected imports (missing, mislabelled,
+    truncated, non-numeric file; with and without an index base) inside a history: the exported object is unchanged, the
+    path never reads as an object that was not written there, files that are read are not modified, and the valid steps
+    that follow are judged as if the rejected ones had not happened"""
+    isolated(ctx, _rejected_body, case)
